@@ -117,6 +117,7 @@ def c04(rep, tier):
     r_scope.run_rtcalls(p, rep)
     r_scope.run_argeval(p, rep)
     r_scope.run_args_loud(p, rep)
+    r_parsers.run_tag_args_kept(p, rep)
     r_verbatim.param_unused(p, rep, "<liquid_lib::stdlib::blocks::capture_block::Capture as liquid_core::runtime::renderable::Renderable>::render_to", 2)
     r_verbatim.capture_binds_text(p, rep, "<liquid_lib::stdlib::blocks::capture_block::Capture as liquid_core::runtime::renderable::Renderable>::render_to")
     r_utf8sink.run_unsafe(p, rep)
@@ -135,6 +136,8 @@ def c05(rep, tier):
     r_pair.run_range(p, rep)
     r_pair.run_empty_ok(p, rep)
     r_pair.run_attr_loop(p, rep)
+    r_pair.run_object_pairs(p, rep)
+    r_pair.run_col_last(p, rep)
     rep.analysed["config:all"] = {"bodies": len(p.fns)}
 
 
@@ -285,6 +288,7 @@ def c01(rep, tier):
     r_parsers.run_filter_arity(p, rep)
     r_parsers.run_nodrop(p, rep)
     r_parsers.run_unclosed(p, rep)
+    r_parsers.run_comment_raw(p, rep)
     r_parsers.run_source_verbatim(p, rep)
     r_lock.run_global_setters(p, rep)
     r_term.run(p, rep, pr, "parse")
@@ -302,6 +306,7 @@ def c02(rep, tier):
     r_utf8sink.run_unsafe(p, rep)
     r_lock.run_reentrant_refcell(p, rep)
     r_cmp.run_cmptotal(p, rep)
+    r_cmp.run_cmp_orientation(p, rep)
     r_term.run(p, rep, rr, "render")
     rep.analysed["config:all"] = {"bodies": len(p.fns), "render_reachable": len(rr)}
     if tier == "thorough":
@@ -320,6 +325,7 @@ def c03(rep, tier):
     g = grammar.load(facts.REPO)
     r_grammar.run_whitespace(rep, g)
     r_grammar.run_delimiters(rep, g)
+    r_grammar.run_hyphen(rep, g)
     r_grammar.run_totality(rep, g)
     RT = " as liquid_core::runtime::renderable::Renderable>::render_to"
     r_verbatim.single_field_print(p, rep, ["<liquid_core::parser::text::Text" + RT, "<liquid_lib::stdlib::blocks::raw_block::RawT" + RT])
